@@ -328,7 +328,8 @@ void syncWorld(const std::string& root, const Json::Value& cgs) {
     }
     mkdirsBelow(root, rel);
     if (c.get("x", false).asBool()) {
-      ::setxattr(p.c_str(), kXattr, "1", 1, 0);
+      std::string xv = c.get("xv", "1").asString();  // the value is free; an empty one is a tag like any other
+      ::setxattr(p.c_str(), kXattr, xv.data(), xv.size(), 0);
     } else {
       ::removexattr(p.c_str(), kXattr);
     }
